@@ -1,7 +1,7 @@
 (* C12 — A failed or reverted call frame leaves no trace.
    Property theorems only: each is closed by [exact <lemma>] (or a vm_compute witness for the
    refuted ones) and followed by [Print Assumptions].
-   Model: Model/C12.v   Lemmas: Proofs/C12.v, Proofs/C12_Inventory.v   Generated: Generated/C12Journal.v
+   Model: Model/C12.v   Lemmas: Proofs/C12.v, Proofs/C12_Evm.v, Proofs/C12_Inventory.v, Proofs/C12_Layers.v   Generated: Generated/C12Journal.v
 
    Reading guide.  [step fx x o] is one call on the StateDB (mutator, Snapshot, RevertToSnapshot);
    [fx = false] is the code of /repo, [fx = true] the proposed repair of StateDB.Suicide.
@@ -11,7 +11,7 @@
    (finding F8), and only when fx = false. *)
 From Coq Require Import String.
 From Coq Require Import List NArith ZArith Bool Lia.
-From GQ Require Import Lib.Key Lib.SMap Lib.C12_Laws Model.C12 Proofs.C12 Proofs.C12_Evm Proofs.C12_Inventory Generated.C12Journal.
+From GQ Require Import Lib.Key Lib.SMap Lib.C12_Laws Model.C12 Proofs.C12 Proofs.C12_Evm Proofs.C12_Inventory Proofs.C12_Layers Generated.C12Journal.
 Import ListNotations.
 
 (* Every mutator only appends to the journal, and reverting what it appended gives back exactly
@@ -370,3 +370,71 @@ Example evm_nonvacuous :
   lk_view (eexec true f9_tx f9_state) [1%N] = Some [3%N; 232%N] /\
   forallb no_claim [EEmit 4; ECall [EEmit 5] true] = true.
 Proof. split; [apply good_start|]. vm_compute. auto. Qed.
+
+
+(* ================= storage of a slot over the transactions of a block =================
+   [lslot] = the three caches a live state object keeps for one slot: dirtyStorage (current transaction),
+   pendingStorage (earlier transactions of the block), originStorage (cache of the trie value), the trie
+   value, the slot's storageChange entries, membership in stateObjectsPending.  [l_block true b s] runs
+   transactions (trees of frames writing the slot) separated by Finalize or IntermediateRoot.
+   [alpha s] = (value GetState returns, value GetCommittedState returns, trie value, journal, pending flag). *)
+
+(* Generated from core/state: storageChange.revert is exactly obj.setState(ch.key, ch.prevalue) and
+   stateObject.setState is exactly s.dirtyStorage[key] = value.  The theorems below are about this
+   variant ([plain = true]); the correspondence cases CL run the variant the source has. *)
+Theorem storage_revert_is_plain_write : code_storage_revert_plain = true.
+Proof. vm_compute. reflexivity. Qed.
+Print Assumptions storage_revert_is_plain_write.
+
+(* Whatever the earlier transactions of the block did, the caches satisfy the invariant the next
+   theorems assume (origin entry = trie value; pending entries only for accounts in
+   stateObjectsPending; a written slot has its origin cached; journal entries imply a dirty entry;
+   rewinding the whole journal gives the committed value). *)
+Theorem storage_caches_invariant_reachable : forall b0 b pre,
+  LInv (l_frames true pre (l_block true b (l_fresh b0))).
+Proof. intros b0 b pre. apply sim_frames. apply l_reachable. Qed.
+Print Assumptions storage_caches_invariant_reachable.
+
+(* The three-level lookup refines a flat slot: running any block on the caches and then reading
+   (visible value, committed value, trie value, journal) is running the block on the flat slot. *)
+Theorem storage_caches_refine_flat_slot : forall b s, LInv s ->
+  alpha (l_block true b s) = f_block b (alpha s) /\ LInv (l_block true b s).
+Proof. exact sim_block. Qed.
+Print Assumptions storage_caches_refine_flat_slot.
+
+(* Storage clause over multi-transaction histories: a frame that fails - in any transaction of the
+   block, after any frames of that transaction, whatever its sub-frames did - leaves the value GetState
+   returns, the value that will be committed, the trie, the journal and the pending flag exactly as at
+   frame entry: in particular it does not resurrect what an earlier transaction left in pendingStorage,
+   and keeps what a sibling frame that completed earlier wrote. *)
+Theorem failed_frame_restores_slot_in_any_transaction : forall s body, LInv s ->
+  alpha (l_exec true (LCall body true) s) = alpha s /\ LInv (l_exec true (LCall body true) s).
+Proof. intros s body I. exact (l_failed_frame body s I). Qed.
+Print Assumptions failed_frame_restores_slot_in_any_transaction.
+
+(* Erasure: a block equals the block without its failed frames (nested ones included), for every
+   block-start value: same visible value, committed value, trie value afterwards. *)
+Theorem block_equals_block_without_failed_frames : forall b0 b,
+  alpha (l_block true b (l_fresh b0)) = alpha (l_block true (erase_block b) (l_fresh b0)).
+Proof. intros b0 b. apply l_erasure. apply LInv_fresh. Qed.
+Print Assumptions block_equals_block_without_failed_frames.
+
+(* Why the obligation storage_revert_is_plain_write matters: with the origin-aware revert (drop the
+   dirty entry when the restored value equals originStorage[key]) the statement is false.  Block-start
+   value 0; transaction 1 writes 5; transaction 2: a frame that completes writes 0, a frame that writes
+   9 fails: the slot reads 5. *)
+Theorem origin_aware_storage_revert_refuted :
+  exists b0 b pre body, let s := l_frames false pre (l_block false b (l_fresh b0)) in
+    l_vis s = 0%N /\ l_vis (l_exec false (LCall body true) s) = 5%N.
+Proof.
+  exists 0%N, [([LSet 5%N], false)], [LCall [LSet 0%N] false], [LSet 9%N]. vm_compute. split; reflexivity.
+Qed.
+Print Assumptions origin_aware_storage_revert_refuted.
+
+Example slot_across_transactions_nonvacuous :
+  let s := l_frames true [LCall [LSet 0%N] false] (l_block true [([LSet 5%N], false)] (l_fresh 0%N)) in
+  l_pending s = Some 5%N /\ l_origin s = Some 0%N /\ l_dirty s = Some 0%N /\ l_jr s = [5%N] /\
+  l_vis (l_exec true (LCall [LSet 9%N; LCall [LSet 5%N] true] true) s) = 0%N /\
+  erase_block [([LSet 5%N], false); ([LCall [LSet 0%N] false; LCall [LSet 9%N] true], true)]
+    = [([LSet 5%N], false); ([LCall [LSet 0%N] false], true)].
+Proof. vm_compute. repeat split; reflexivity. Qed.
